@@ -149,11 +149,27 @@ def tmin(*xs):
         else:
             flat.append(x)
     uniq = sorted(set(flat), key=key)
+    uniq = _drop_dominated(uniq, keep_smaller=True)
     if len(uniq) == 1:
         return uniq[0]
     if all(is_const(u) for u in uniq):
         return const(min(u[1] for u in uniq))
     return root(('min', tuple(uniq)))
+
+
+def _drop_dominated(forms, keep_smaller):
+    """of two forms that differ by a constant only one can be the minimum / maximum"""
+    out = []
+    for f in forms:
+        dominated = False
+        for g in forms:
+            if g is f or g[2] != f[2] or g[1] == f[1]:
+                continue
+            if (g[1] < f[1]) == keep_smaller:
+                dominated = True
+        if not dominated:
+            out.append(f)
+    return out
 
 
 def tmax(*xs):
@@ -166,6 +182,7 @@ def tmax(*xs):
         else:
             flat.append(x)
     uniq = sorted(set(flat), key=key)
+    uniq = _drop_dominated(uniq, keep_smaller=False)
     if len(uniq) == 1:
         return uniq[0]
     if all(is_const(u) for u in uniq):
